@@ -249,7 +249,7 @@ def gen_cases(chk, replays):
     nontrivial = sorted((r for r in replays if any(s["a"] == "Set" for s in r)),
                         key=lambda r: json.dumps(r, sort_keys=True))     # TLC's print order is not deterministic
     rng.shuffle(nontrivial)
-    for r in nontrivial[:(400 if thorough else 30)]:
+    for r in nontrivial[:(300 if thorough else 30)]:
         bind = {"p1": rng.choice(classes)[1], "p2": rng.choice(classes)[1]}
         if bind["p1"] == bind["p2"]:
             bind["p2"] = bind["p2"] + "2"
@@ -265,7 +265,7 @@ def gen_cases(chk, replays):
                 steps.append(_load(rng))
         cases.append({"base": "new", "steps": steps, "family": "tlc-replay"})
     # C: random histories with random Unicode passwords
-    for _ in range(1000 if thorough else 30):
+    for _ in range(700 if thorough else 30):
         base = rng.choice(["new", "new", "new", "sheet_lock", "book_lock"])
         steps, isset, saved = [], set(BASES[base]), False
         for _ in range(rng.randint(3, 9)):
